@@ -265,7 +265,7 @@ class PersLandscapeExact(PersLandscape):
         A = list(A)
         # change inner nparrays into lists
         for i in range(len(A)):
-            A[i] = list(A[i])
+            A[i] = [float(v) for v in A[i]]
         if A[-1][1] == np.inf:
             A.pop(-1)
 
